@@ -2,4 +2,4 @@ From OAS Require Import Lib.Str Model.Responses Model.Path Model.Server.
 Require Extraction.
 Require Import ExtrOcamlBasic ExtrOcamlString.
 Extraction Blacklist String List Nat.
-Extraction "Extract/c05_model.ml" route_table parse_path axum_path server_status tok_of_key route_fn dec_of_N.
+Extraction "Extract/c05_model.ml" route_table parse_path axum_path server_status tok_of_key route_fn dec_of_N payload_encoder.
